@@ -20,8 +20,8 @@ FRESH = ["foo", "DF999", "x", "_y", "__z", "NSat2", "payload2", "DF002_01", "_im
 
 
 def snapshot(m):
-    d = {k: (dict(v) if isinstance(v, dict) else v) for k, v in m.__dict__.items()}
-    return (bytes(m.payload), m.identity, list(d.items()), str(m), repr(m), m.serialize(), m.ismsm)
+    d = {k: v for k, v in m.__dict__.items() if not k.startswith("_")}
+    return (bytes(m.payload), m.identity, list(d.items()), str(m), repr(m), bytes(m.serialize()), m.ismsm, sorted(k for k in m.__dict__ if not k.startswith("_")))
 
 
 def o_setattr(case):
